@@ -559,7 +559,10 @@ class V:
         radicand = rmul(n, self._den_term(odd)) if odd else n
         for a in odd:
             if not ctx.atom_pos[a]:
-                raise Unsupported("sqrt over a denominator of unknown sign")
+                if implied(ctx, ctx.atoms[a] > 0):
+                    ctx.atom_pos[a] = True  # proven by the solver from the domain
+                else:
+                    raise Unsupported("sqrt over a denominator of unknown sign")
         key = ("sqrt", to_z3(radicand).get_id(), complex_branch)
         hit = ctx.aux_sqrt.get(key)
         if hit is None:
@@ -671,3 +674,15 @@ def atoms_nonzero(ctx: Ctx) -> list:
     for i, t in ctx.atoms.items():
         out.append(t > 0 if ctx.atom_pos[i] else t != 0)
     return out
+
+
+def implied(ctx: Ctx, cond, timeout_ms: int = 10000) -> bool:
+    """True iff the solver proves `cond` from the current domain (used to pick branches soundly)."""
+    s = z3.Solver()
+    s.set("timeout", timeout_ms)
+    for a in ctx.constraints:
+        s.add(a)
+    for a in atoms_nonzero(ctx):
+        s.add(a)
+    s.add(z3.Not(cond))
+    return str(s.check()) == "unsat"
